@@ -591,6 +591,20 @@ def step (d : State) (toks : List String) : State × String :=
       d.threads.any fun t => t.kind != .stop && t.peer = k &&
         t.conns.any fun ci => match d.core.conns[ci]? with | some c => c.isOpen | none => false
     (d, s!"open={Util.showNatList openPeers} rest={quiescent d.core} {view d}")
+  | ["stress", n, m] =>
+    -- n established connections, then m `Send`s to new peers and one `Stop`, all running freely:
+    -- whatever the interleaving, `Stop` returns, everything comes to rest with every connection
+    -- closed and nothing is dispatched afterwards (`c10_all_closed`, `c10_no_dispatch_after_close`,
+    -- `c10_racing_ops_fail_cleanly` hold for every schedule), so the report does not depend on it
+    match n.toNat?, m.toNat? with
+    | some n, some m =>
+      if d.threads.isEmpty ∧ d.core.conns.isEmpty ∧ n ≤ 64 ∧ m ≤ 64 then (d, "stopped=true open=- late=0")
+      else (d, "bad-op")
+    | _, _ => (d, "bad-op")
+  | ["stall", tr] =>
+    -- a `Send` blocked on a peer that does not read, then `Stop`: closing a connection does not
+    -- wait for anything (`stopCrit` is one step), the blocked `Send` fails, `Stop` returns
+    if tr = "tcp" ∧ d.threads.isEmpty ∧ d.core.conns.isEmpty then (d, "stop=ret send=err") else (d, "bad-op")
   | ["srv", tr] =>
     if tr = "local" ∨ tr = "tcp" then
       ({ d with srv := some ({ started := true, routerUp := true, wsStarted := true, ovClosed := false,
@@ -606,7 +620,7 @@ def step (d : State) (toks : List String) : State × String :=
         | some ov' => (ov', "ok")
         | none => (ov, "err")
       ({ d with srv := some (sv, ov), startedOk := d.startedOk ++ [res == "ok"] },
-        s!"start={res} insts={(ov.insts.filter (·.listed)).length}")
+        s!"start={res} insts={(ov.insts.filter (·.listed)).length} dispatchers={(ov.insts.filter (·.bound)).length}")
     | none => (d, "bad-op")
   | ["srvdone", i] =>
     match d.srv, i.toNat? with
@@ -615,7 +629,8 @@ def step (d : State) (toks : List String) : State × String :=
       -- instance gone already ("Node already gone") and changes nothing
       if d.startedOk[i]? = some true ∧ ¬ d.doneL.contains i then
         let ov' := (ovStep ov (.done i)).getD ov
-        ({ d with srv := some (sv, ov'), doneL := i :: d.doneL }, s!"insts={(ov'.insts.filter (·.listed)).length}")
+        ({ d with srv := some (sv, ov'), doneL := i :: d.doneL },
+          s!"insts={(ov'.insts.filter (·.listed)).length} dispatchers={(ov'.insts.filter (·.bound)).length}")
       else (d, "bad-op")
     | _, _ => (d, "bad-op")
   | ["srvgrace", ms] =>
@@ -649,7 +664,7 @@ def step (d : State) (toks : List String) : State × String :=
       let (sv', res) := serverClose sv
       let ov' := (ovStep ov .close).getD ov
       ({ d with srv := some (sv', ov') },
-        s!"close={match res with | .ok => "ok" | .err => "err"} insts={(ov'.insts.filter (·.listed)).length}")
+        s!"close={match res with | .ok => "ok" | .err => "err"} insts={(ov'.insts.filter (·.listed)).length} dispatchers={(ov'.insts.filter (·.bound)).length}")
     | none => (d, "bad-op")
   | _ => (d, "bad-op")
 
